@@ -280,7 +280,7 @@ namespace BitSerializer::Convert::Utf
 						}
 						// Surrogate characters are always written as pairs (low follows after high)
 						const char16_t low = *in;
-						if (low >= UnicodeTraits::LowSurrogatesStart && sym <= UnicodeTraits::LowSurrogatesEnd)
+						if (low >= UnicodeTraits::LowSurrogatesStart && low <= UnicodeTraits::LowSurrogatesEnd)
 						{
 							sym = 0x10000 + ((sym & 0x3FF) << 10 | (low & 0x3FF));
 							++in;
@@ -386,7 +386,7 @@ namespace BitSerializer::Convert::Utf
 							}
 							// Surrogate characters are always written as pairs (low follows after high)
 							const char16_t low = *in;
-							if (low >= UnicodeTraits::LowSurrogatesStart && sym <= UnicodeTraits::LowSurrogatesEnd)
+							if (low >= UnicodeTraits::LowSurrogatesStart && low <= UnicodeTraits::LowSurrogatesEnd)
 							{
 								sym = 0x10000 + ((sym & 0x3FF) << 10 | (low & 0x3FF));
 								++in;
